@@ -44,7 +44,7 @@ impl<K> OrphanStats<K> {
                 let intents = self.cas_inner.index.pending_intents.lock();
                 let state = self.cas_inner.index.read_state();
                 let still_referenced = state.contains_blob_hash(hash);
-                let has_intent = intents.values().any(|intent_hash| intent_hash == hash);
+                let has_intent = intents.is_protected(hash);
                 drop(state);
 
                 if still_referenced || has_intent {
@@ -113,7 +113,7 @@ impl<K> OrphanStats<K> {
                 let intents = self.cas_inner.index.pending_intents.lock();
                 let state = self.cas_inner.index.read_state();
                 let still_referenced = state.contains_blob_hash(hash);
-                let has_intent = intents.values().any(|intent_hash| intent_hash == hash);
+                let has_intent = intents.is_protected(hash);
                 drop(state);
 
                 if still_referenced || has_intent {
@@ -154,7 +154,7 @@ impl<K> OrphanStats<K> {
         let intents = self.cas_inner.index.pending_intents.lock();
         let state = self.cas_inner.index.read_state();
         let still_referenced = state.contains_blob_hash(hash);
-        let has_intent = intents.values().any(|intent_hash| intent_hash == hash);
+        let has_intent = intents.is_protected(hash);
         drop(state);
 
         if still_referenced || has_intent {
